@@ -19,6 +19,8 @@ func C11(tier string) int {
 		{static, "i2rw,r2owa,nop", 3, 2, 2, 2, "queue,stack,channel"},
 		{dynamic, "add", 1, 0, 1, 1, "sharedmem,barrier,lfsr8,kbd"},
 		{"nop", "", 0, 0, 0, 0, "uart,vtextmem1"},
+		{"add,inc", "j", 1, 3, 1, 1, ""}, // more ROM data words than program lines
+		{"clr", "", 0, 2, 1, 0, ""},      // data with an empty program
 	}
 	if tier == "thorough" {
 		fam = append(fam,
